@@ -82,8 +82,10 @@ func (b *ClassifierBackend) ClassifyLicenses(numTasks int, filenames []string, h
 	var wg sync.WaitGroup
 	analyze := func(filename string) {
 		defer func() {
-			wg.Done()
+			// Hand the slot back before signalling completion: the pool is
+			// closed as soon as the last task is done.
 			task <- true
+			wg.Done()
 		}()
 		if err := b.classifyLicense(filename, headers); err != nil {
 			errs <- err
